@@ -125,9 +125,9 @@ theorem GStep.inv2 {wf : Wf} (hwf : wf.WF) {s s' : St} (hG : Good wf s) (hN : No
       simp only [Option.some.injEq] at hj
       exact hw ⟨j, hwf.order_lt j ho, hj, by rw [e, hj]⟩
 
-theorem taskExit_gstep {wf : Wf} {s : St} (c : Nat) (hpf : (s.comp c).pendingFinal = none) :
-    GStep wf s (taskExit wf s c) := by
-  unfold taskExit
+theorem taskExitCore_gstep {wf : Wf} {s : St} (c : Nat) (hpf : (s.comp c).pendingFinal = none) :
+    GStep wf s (taskExitCore wf s c) := by
+  unfold taskExitCore
   dsimp only
   split
   · simp only [hpf]
@@ -136,6 +136,13 @@ theorem taskExit_gstep {wf : Wf} {s : St} (c : Nat) (hpf : (s.comp c).pendingFin
     · split <;> simp <;> split <;> simp_all
     · left; revert h; split <;> simp <;> split <;> simp_all
     · left; split <;> simp <;> split <;> simp_all
+  · exact GStep.of_eq rfl rfl
+
+theorem taskExit_gstep {wf : Wf} {s : St} (c : Nat) (hpf : (s.comp c).pendingFinal = none) :
+    GStep wf s (taskExit wf s c) := by
+  unfold taskExit
+  split
+  · exact taskExitCore_gstep c hpf
   · exact GStep.of_eq rfl rfl
 
 theorem finish_comp_pm {s : St} {c : Nat} {st : Fin3} (hc : (s.comp c).ctrl = none)
